@@ -327,6 +327,64 @@ def inline_hir(node, new_hir, counter, depth=0):
     return node
 
 
+def hoist_inlined(node):
+    """`let x = { let p = a; s1; s2; tail };` (an inlined helper that is the whole initialiser / statement / tail of a block) ->
+    `let p = a; s1; s2; let x = tail;`. Variables are identified by id, so widening their scope cannot capture anything; rules
+    that read a statement sequence (`let len = ..; merge(..); if len == ..`) see the same sequence as before the extraction."""
+    if isinstance(node, list):
+        return [hoist_inlined(v) for v in node]
+    if not isinstance(node, dict):
+        return node
+    node = {k: hoist_inlined(v) for k, v in node.items()}
+    if node.get("k") != "block" or not isinstance(node.get("stmts"), list):
+        return node
+    def parts(e):
+        """(statements, tail) of an inlined-helper block, None when e is not one"""
+        if not (isinstance(e, dict) and e.get("k") == "block" and e.get("inlined") and e.get("inlined") != "local closure"):
+            return None
+        pre = list(e.get("stmts") or [])
+        inner = e.get("expr")
+        while isinstance(inner, dict) and inner.get("k") == "block" and isinstance(inner.get("stmts"), list) and not inner.get("label") and not inner.get("unsafe"):
+            if inner.get("inlined"):
+                sub = parts(inner)
+                if sub is None:
+                    break
+                pre += sub[0]
+                inner = sub[1]
+                continue
+            pre += inner["stmts"]
+            inner = inner.get("expr")
+        return pre, inner
+    out = []
+    for st in node["stmts"]:
+        if isinstance(st, dict) and st.get("k") == "let" and st.get("els") is None:
+            pr = parts(st.get("init"))
+            if pr and pr[1] is not None:
+                out += pr[0]
+                out.append({**st, "init": pr[1]})
+                continue
+        if isinstance(st, dict) and st.get("k") == "semi":
+            pr = parts(st.get("e"))
+            if pr:
+                out += pr[0]
+                if pr[1] is not None:
+                    out.append({**st, "e": pr[1]})
+                continue
+        pr = parts(st)
+        if pr:                                  # an expression statement without `;`
+            out += pr[0]
+            if pr[1] is not None:
+                out.append(pr[1])
+            continue
+        out.append(st)
+    node["stmts"] = out
+    pr = parts(node.get("expr"))
+    if pr:
+        node["stmts"] = node["stmts"] + pr[0]
+        node["expr"] = pr[1]
+    return node
+
+
 def inline_local_closures(body, counter):
     """`let f = |a, b| { .. }; .. f(x, y) ..` -> the call is replaced by the closure body with its parameters bound (HIR only):
     moving a block of a function into a local closure does not hide it from the rules. Closures that are passed around as values
@@ -556,6 +614,7 @@ def apply(fb):
         before = counter[0]
         h["body"] = inline_hir(h["body"], {k: v for k, v in new_hir.items() if k != key}, counter)
         if counter[0] != before:
+            h["body"] = hoist_inlined(h["body"])
             fb.inlined.append({"into": h["path"], "level": "HIR", "count": counter[0] - before})
     # a private new helper whose calls were all inlined is no longer a unit of analysis
     fb.absorbed = {k for k, b in new.items() if not b.get("pub") and remaining_calls.get(k, 0) == 0 and any(x.get("callee") == b["path"] for x in fb.inlined)}
